@@ -12,6 +12,7 @@
 //	               has not run yet (= the AfterFunc goroutine is blocked on the engine's pitLock)
 //	RunFired(t)    the callback runs
 //	FireRun(t)     Fire immediately followed by RunFired (keeps the common case one event deep)
+//	AdvCall        (reply configuration) virtual now jumps exactly onto the next deadline of a kept Reply function
 //
 // This reproduces, sequentially and deterministically, every interleaving of timeout goroutines
 // with the receive path that the engine's pitLock allows (the lock makes onData/onNack/timeoutFunc
@@ -111,8 +112,9 @@ type hTimer struct {
 	// dm != nil: the "dummy" configuration. The engine is then driven by the repository's own
 	// virtual timer (std/engine/dummy.Timer: real Schedule / cancel / MoveForward); `now` only
 	// mirrors its clock for the oracle.
-	dm *dummy.Timer
-	in *inst
+	dm     *dummy.Timer
+	in     *inst
+	nSched int // dummy configuration: number of Schedule calls so far (= id of the shadow's timer for the same call)
 }
 
 func (t *hTimer) Now() time.Time {
@@ -128,7 +130,10 @@ func (t *hTimer) Nonce() []byte { return []byte{1, 2, 3, 4, 5, 6, 7, 8} }
 func (t *hTimer) Schedule(d time.Duration, f func()) func() error {
 	if t.dm != nil {
 		in := t.in
+		seq := t.nSched
+		t.nSched++
 		return t.dm.Schedule(d, func() {
+			in.dmRan = append(in.dmRan, seq)
 			f()
 			in.runDeferred("early") // pitLock is free again; MoveForward has not returned yet
 		})
@@ -208,6 +213,9 @@ type hcall struct {
 	name     string
 	deadline time.Time
 	reply    ndn.WireReplyFunc
+	frame    string // how the Interest arrived: "" bare, "plain" LpPacket without token, "tok" LpPacket with a PIT token
+	token    []byte // the PIT token it carried (nil: none)
+	life     string // its InterestLifetime as received ("none": element absent, else ms)
 }
 
 const (
@@ -234,6 +242,7 @@ type inst struct {
 	hist     []string
 	deferred []*intr // re-expressions queued by callbacks
 	ref      *inst   // dummy configuration only: shadow run of the same events on the harness timer
+	dmRan    []int   // dummy configuration only: events dummy.Timer ran during the current step, by Schedule sequence number, in order
 }
 
 func (in *inst) bad(clause, key, detail string) {
@@ -295,6 +304,25 @@ func mkInterest(name enc.Name, cbp bool, life time.Duration, nonce ...uint64) *n
 	return ei
 }
 
+// inInterest: the wire of an incoming Interest. life < 0: no InterestLifetime element at all (the
+// protocol default of 4 s applies); life == 0: the element is present with value 0.
+func inInterest(name enc.Name, life time.Duration) []byte {
+	ic := &ndn.InterestConfig{}
+	if life >= 0 {
+		l := life
+		ic.Lifetime = &l
+	}
+	ei, err := spec.Spec{}.MakeInterest(name, ic, nil, nil)
+	if err != nil {
+		report.Fatal("MakeInterest(%s): %v", name, err)
+	}
+	return append([]byte{}, ei.Wire.Join()...)
+}
+
+// defaultLife: NDN packet format, InterestLifetime: "If the InterestLifetime element is omitted, a
+// default value of 4 seconds is used."
+const defaultLife = 4 * time.Second
+
 func nackWire(name string) []byte {
 	iw := mkInterest(nm(name), false, 10*ms).Wire
 	pkt := &spec.Packet{LpPacket: &spec.LpPacket{Nack: &spec.NetworkNack{Reason: spec.NackReasonNoRoute}, Fragment: iw}}
@@ -309,9 +337,16 @@ func nackWire(name string) []byte {
 
 // lpWrap puts a network-layer packet into an NDNLPv2 frame (LpPacket), optionally with a PIT token.
 func lpWrap(inner []byte, token bool) []byte {
-	lp := &spec.LpPacket{Fragment: enc.Wire{inner}}
 	if token {
-		lp.PitToken = []byte{0xc2, 0x00, 0x00, 0x01}
+		return lpWrapTok(inner, []byte{0xc2, 0x00, 0x00, 0x01})
+	}
+	return lpWrapTok(inner, nil)
+}
+
+func lpWrapTok(inner []byte, token []byte) []byte {
+	lp := &spec.LpPacket{Fragment: enc.Wire{inner}}
+	if token != nil {
+		lp.PitToken = token
 	}
 	pkt := &spec.Packet{LpPacket: lp}
 	e := spec.PacketEncoder{}
@@ -351,7 +386,9 @@ type cfgT struct {
 	split     bool
 	prefixes  []string
 	inNames   []string
-	inLives   []int
+	inLives   []int    // InterestLifetime of incoming Interests in ms; 0: element present with value 0; -1: element absent (4 s default)
+	inFrames  []string // how incoming Interests are framed: "" bare, "plain" NDNLPv2 LpPacket, "tok" LpPacket with a PIT token (nil = bare only)
+	advCall   bool     // AdvCall event: the clock jumps exactly ONTO the next deadline of a kept Reply function
 	maxIn     int
 	retries   []string // extra Express variants whose callback re-expresses once on timeout/Nack ("late", "early")
 	dummy     bool     // drive the engine with the repository's dummy.Timer and shadow it on the harness timer
@@ -440,6 +477,14 @@ func (s *sys) Ops(i any) []explore.Op {
 	if c.advNext && later {
 		add("AdvNext")
 	}
+	if c.advCall {
+		for _, h := range in.calls {
+			if h.deadline.After(in.tm.now) {
+				add("AdvCall")
+				break
+			}
+		}
+	}
 	for _, t := range in.tm.timers {
 		if t.state == tSched && !t.deadline.After(in.tm.now) {
 			add("FireRun(t%d)", t.id)
@@ -464,7 +509,16 @@ func (s *sys) Ops(i any) []explore.Op {
 	if in.nIn < c.maxIn {
 		for _, n := range c.inNames {
 			for _, l := range c.inLives {
-				add("Interest(%s,life=%d)", n, l)
+				ls := fmt.Sprint(l)
+				if l < 0 {
+					ls = "none"
+				}
+				add("Interest(%s,life=%s)", n, ls)
+				for _, fr := range c.inFrames {
+					if fr != "" {
+						add("Interest(%s,life=%s,lp=%s)", n, ls, fr)
+					}
+				}
 			}
 		}
 	}
@@ -620,6 +674,17 @@ func (s *sys) step(in *inst, op string) []report.Violation {
 		if !nx.IsZero() {
 			in.tm.now = nx
 		}
+	case "AdvCall":
+		var nx time.Time
+		for _, h := range in.calls {
+			if h.deadline.After(in.tm.now) && (nx.IsZero() || h.deadline.Before(nx)) {
+				nx = h.deadline
+			}
+		}
+		if nx.IsZero() {
+			report.Fatal("harness: %s not enabled", op)
+		}
+		in.tm.now = nx
 	case "FireRun", "Fire", "RunFired":
 		var id int
 		fmt.Sscanf(a[0], "t%d", &id)
@@ -653,8 +718,18 @@ func (s *sys) step(in *inst, op string) []report.Violation {
 			in.attached[a[0]] = aMaybe // the property does not say what a failed detach leaves behind
 		}
 	case "Interest":
-		var l int
-		fmt.Sscanf(a[1], "life=%d", &l)
+		l := -1
+		if a[1] != "life=none" {
+			fmt.Sscanf(a[1], "life=%d", &l)
+		}
+		life := defaultLife
+		if l >= 0 {
+			life = time.Duration(l) * ms
+		}
+		frame := ""
+		if len(a) > 2 {
+			frame = strings.TrimPrefix(a[2], "lp=")
+		}
 		in.nIn++
 		name := a[0]
 		arrival := in.tm.now
@@ -672,9 +747,20 @@ func (s *sys) step(in *inst, op string) []report.Violation {
 			}
 			p = p[:strings.LastIndex(p, "/")]
 		}
-		in.face.onPkt(enc.NewBufferReader(append([]byte{}, mkInterest(nm(name), false, time.Duration(l)*ms).Wire.Join()...)))
+		w := inInterest(nm(name), time.Duration(l)*ms)
+		var token []byte
+		switch frame {
+		case "tok":
+			// every incoming Interest of a history carries its own token value
+			token = []byte{0xc2, 0x00, 0x00, byte(in.nIn)}
+			w = lpWrapTok(w, token)
+		case "plain":
+			w = lpWrapTok(w, nil)
+		}
+		in.face.onPkt(enc.NewBufferReader(w))
 		for _, h := range in.curCalls {
-			h.deadline = arrival.Add(time.Duration(l) * ms)
+			h.deadline = arrival.Add(life)
+			h.frame, h.token, h.life = frame, token, strings.TrimPrefix(a[1], "life=")
 			in.calls = append(in.calls, h)
 		}
 		ok := false
@@ -725,14 +811,23 @@ func (s *sys) step(in *inst, op string) []report.Violation {
 		n0 := len(in.face.sent)
 		err := h.reply(enc.Wire{d.wire})
 		sent := len(in.face.sent) > n0
+		how := "a bare Interest"
+		switch h.frame {
+		case "tok":
+			how = "an Interest that arrived in an LpPacket with a PIT token"
+		case "plain":
+			how = "an Interest that arrived in an LpPacket"
+		}
 		switch {
 		case in.tm.now.Before(h.deadline):
-			if !sent || err != nil || !bytes.Equal(in.face.sent[n0], d.wire) {
-				in.bad("C20.deadline", "reply before the deadline not transmitted", fmt.Sprintf("Reply for Interest %s %v before its deadline: err=%v, transmitted=%v", h.name, h.deadline.Sub(in.tm.now), err, sent))
+			if !sent || err != nil {
+				in.bad("C20.deadline", "reply before the deadline not transmitted", fmt.Sprintf("Reply for Interest %s (%s) %v before its deadline: err=%v, transmitted=%v", h.name, how, h.deadline.Sub(in.tm.now), err, sent))
+			} else if why := replyFrame(in.face.sent[n0], d, h); why != "" {
+				in.bad("C20.deadline", "reply before the deadline not transmitted: "+why, fmt.Sprintf("Reply for Interest %s (%s) %v before its deadline put frame %x on the face; the reply Data is %x", h.name, how, h.deadline.Sub(in.tm.now), in.face.sent[n0], d.wire))
 			}
 		case in.tm.now.After(h.deadline):
 			if sent {
-				in.bad("C20.deadline", "reply transmitted after the deadline", fmt.Sprintf("Reply for Interest %s %v after its deadline was transmitted (err=%v)", h.name, in.tm.now.Sub(h.deadline), err))
+				in.bad("C20.deadline", "reply transmitted after the deadline", fmt.Sprintf("Reply for Interest %s (%s) %v after its deadline was transmitted (err=%v)", h.name, how, in.tm.now.Sub(h.deadline), err))
 			}
 		}
 	default:
@@ -741,6 +836,31 @@ func (s *sys) step(in *inst, op string) []report.Violation {
 	in.runDeferred("late")
 	s.track(in)
 	return in.viol
+}
+
+// replyFrame: is the frame the engine put on the face a transmission of the reply Data d for the
+// Interest of h? "" = yes. Accepted: the Data wire itself, or an NDNLPv2 LpPacket whose Fragment is
+// the Data wire (the property does not prescribe the framing, and does not demand that the PIT
+// token of the Interest is echoed); a frame that carries a PIT token OTHER than the one the
+// Interest arrived with is addressed to a different pending Interest and is not accepted.
+func replyFrame(frame []byte, d *dataPkt, h *hcall) string {
+	if bytes.Equal(frame, d.wire) {
+		return ""
+	}
+	pkt, _, err := spec.ReadPacket(enc.NewBufferReader(frame))
+	if err != nil || pkt == nil {
+		return "the frame sent is not a parsable packet"
+	}
+	if pkt.LpPacket == nil || !bytes.Equal(pkt.LpPacket.Fragment.Join(), d.wire) {
+		return "the frame sent does not carry the reply Data"
+	}
+	if pkt.LpPacket.Nack != nil {
+		return "the frame sent is a Nack"
+	}
+	if t := pkt.LpPacket.PitToken; len(t) > 0 && h.token != nil && !bytes.Equal(t, h.token) {
+		return "the frame sent carries a PIT token other than the Interest's"
+	}
+	return ""
 }
 
 // express hands x to the real engine and records the white-box identities of its PIT entry/node.
@@ -790,7 +910,11 @@ func (in *inst) runDeferred(mode string) {
 // runTimer runs the callback of a fired timer. For the violation keys it notes (white box) whether
 // the PIT node captured by the timeout closure, or one of its ancestors, had already been detached
 // from the trie ("stale").
-func (in *inst) runTimer(t *tmr) {
+func (in *inst) runTimer(t *tmr) { in.runTimerM(t, "late") }
+
+// runTimerM: mode "late": every re-expression the callbacks queued is performed right after the
+// timer function; "early": only those of retry=early Interests, the others stay queued.
+func (in *inst) runTimerM(t *tmr, mode string) {
 	in.curKind = "timeout"
 	in.curName = ""
 	if t.owner >= 0 {
@@ -803,7 +927,7 @@ func (in *inst) runTimer(t *tmr) {
 	}
 	t.state = tDone
 	t.f()
-	in.runDeferred("late")
+	in.runDeferred(mode)
 }
 
 func (in *inst) handler(prefix string) ndn.InterestHandler {
@@ -862,11 +986,12 @@ func (s *sys) Apply(i any, op explore.Op) []report.Violation {
 	if op.Name == "Quiesce" {
 		return s.step(in, op.Name)
 	}
+	in.dmRan = nil
 	v := append([]report.Violation{}, s.step(in, op.Name)...)
 	if in.ref != nil {
 		s.step(in.ref, op.Name)
 		if op.Name == "Adv(10)" {
-			refRunDue(in.ref)
+			refRunDue(in.ref, in.dmRan)
 		}
 		v = append(v, diffRef(in, op.Name)...)
 	}
@@ -875,8 +1000,24 @@ func (s *sys) Apply(i any, op explore.Op) []report.Violation {
 func (s *sys) Do(i any, op explore.Op) { s.Apply(i, op) }
 
 // refRunDue: on the shadow instance, what dummy.Timer.MoveForward documents: every scheduled event
-// whose time is strictly before now fires and runs (deadline order).
-func refRunDue(r *inst) {
+// whose time is strictly before now fires and runs. Neither the property nor dummy.Timer orders
+// events that are due in the same MoveForward, and re-expressions queued by callbacks for "after
+// the event" are performed by the main run when MoveForward has returned; both choices can change
+// which PIT node a re-expressed Interest lands in and therefore which (legal) timeout sweep resolves
+// it. The shadow therefore takes the SAME schedule as the main run: due events run in the order in
+// which dummy.Timer ran their counterparts (order = Schedule sequence numbers, which are the
+// shadow's timer ids), "late" re-expressions are performed after the last of them. An event
+// dummy.Timer ran although it is not due or was cancelled on the shadow is not mirrored, a due
+// event dummy.Timer did not run is run afterwards (deadline order): either way the results differ
+// and diffRef reports it.
+func refRunDue(r *inst, order []int) {
+	for _, id := range order {
+		if id < len(r.tm.timers) {
+			if t := r.tm.timers[id]; t.state == tSched && t.deadline.Before(r.tm.now) {
+				r.runTimerM(t, "early")
+			}
+		}
+	}
 	for {
 		var nx *tmr
 		for _, t := range r.tm.timers {
@@ -885,10 +1026,11 @@ func refRunDue(r *inst) {
 			}
 		}
 		if nx == nil {
-			return
+			break
 		}
-		r.runTimer(nx)
+		r.runTimerM(nx, "early")
 	}
+	r.runDeferred("late")
 }
 
 // diffRef: the run on dummy.Timer and the shadow run on the harness timer must have delivered the
@@ -949,10 +1091,11 @@ func (s *sys) CheckState(i any) []report.Violation {
 		in.curKind, in.curName = "timeout", ""
 		for k := 0; k < 3; k++ {
 			in.tm.now = in.tm.now.Add(time.Hour)
+			in.dmRan = nil
 			in.tm.dm.MoveForward(time.Hour)
 			in.runDeferred("late")
 			in.ref.tm.now = in.ref.tm.now.Add(time.Hour)
-			refRunDue(in.ref)
+			refRunDue(in.ref, in.dmRan)
 		}
 	}
 	// already fired timers run now; the others fire and run on time, in deadline order
@@ -1034,7 +1177,8 @@ func (in *inst) nodeDesc(byEntry map[any]*intr, n basic.VerifPitNode) string {
 //   - every pending Interest with the same chain for its node (covers entries in detached nodes);
 //   - the number of Interests expressed (bounds the alphabet);
 //   - the reachable FIB trie, the model's attached map, pending handler invocations (handler,
-//     name, deadline relative to now with sign preserved) and the count of Interests received.
+//     name, deadline relative to now with sign preserved, InterestLifetime form and link framing
+//     of the Interest) and the count of Interests received.
 //
 // Absolute time, Interest/timer/handler-call sequence numbers and pointer values are not part of
 // it: the engine compares time only against Now, and identities matter only through list order
@@ -1098,7 +1242,9 @@ func (s *sys) Canon(i any) string {
 		if d >= 0 {
 			r = fmt.Sprint(int64(d / ms))
 		}
-		cs = append(cs, fmt.Sprintf("%s>%s,%s", h.name, h.handler, r))
+		// the lifetime form and framing are part of it: the Reply closure holds a deadline and a token
+		// computed by the engine from them, which the model's deadline only mirrors
+		cs = append(cs, fmt.Sprintf("%s>%s,%s,%s,%s", h.name, h.handler, r, h.life, h.frame))
 	}
 	// call ids are positional (Reply(h<id>)), keep list order
 	fmt.Fprintf(&b, "#C%s#i%d", strings.Join(cs, "|"), in.nIn)
@@ -1117,6 +1263,12 @@ var (
 	// names whose last components carry the SAME value bytes (0x01) under different TLV types:
 	// segment (50), version (54), generic (8). They are different names.
 	nt = []string{"/a/seg=1", "/a/v=1", "/a/%01"}
+	// pairs of DIFFERENT last components that are easily confused by a trie keyed with anything but
+	// (type, value): the same URI text once as the value of a generic component and once as the
+	// printed form of a typed one (generic "v=1" = /a/v%3D1 vs version 1 = /a/v=1; generic "9=x" =
+	// /a/9%3Dx vs type-9 "x" = /a/9=x), and the same value bytes under three types (generic "x",
+	// type-9 "x", keyword 32=x). Six different names, none a prefix of another.
+	na = []string{"/a/v=1", "/a/v%3D1", "/a/9=x", "/a/9%3Dx", "/a/x", "/a/32=x"}
 	// nested prefixes four levels deep (handler dispatch has to climb over >= 2 handler-less nodes)
 	n4 = []string{"/a", "/a/b", "/a/b/c", "/a/b/c/d"}
 )
@@ -1143,6 +1295,17 @@ var configs = map[string]cfgT{
 		dataNames: append([]string{"/a"}, nt...), lpData: []string{"tok"}, nackNames: nt, advNext: true},
 	// ... nor FIB nodes (handlers attached at such prefixes must not collide)
 	"typedh": {prefixes: nt, inNames: nt, inLives: []int{10}, maxIn: 2, adv10: true},
+	// look-alike components (see na): expressed Interests, Data and Nack arrivals ...
+	"ambig": {names: na, cbps: []bool{false, true}, lives: []int{10}, digs: []string{"none"}, maxInt: 3,
+		dataNames: append([]string{"/a"}, na...), nackNames: na, advNext: true},
+	// ... and handler prefixes / incoming Interests
+	"ambigh": {prefixes: na, inNames: na, inLives: []int{10}, maxIn: 2, adv10: true},
+	// reply deadline: every InterestLifetime form of an incoming Interest (element absent = 4 s
+	// default, present with value 0, 10 ms, 20 ms) x every framing (bare, LpPacket, LpPacket with a PIT
+	// token) x Reply before / exactly on (AdvCall) / after the deadline; the handler at /a receives
+	// Interests for its own name and for a longer one
+	"reply": {prefixes: []string{"/a"}, inNames: []string{"/a", "/a/b"}, inLives: []int{-1, 0, 10, 20}, inFrames: []string{"", "plain", "tok"},
+		maxIn: 2, adv10: true, advCall: true},
 	// tiny alphabets for deep history searches WITHOUT de-duplication (explore.Config.NoDedup): a bug
 	// that adds hidden state no canonical form can see (cached node pointer, reused scratch slice)
 	// cannot be pruned away there
@@ -1174,6 +1337,14 @@ func build(name string) explore.System {
 		report.Fatal("unknown config %q", name)
 	}
 	c.maxInt, c.maxIn = mi, min
+	// the model compares names as strings: every name of the universe must be in canonical URI form
+	for _, l := range [][]string{c.names, c.dataNames, c.nackNames, c.prefixes, c.inNames} {
+		for _, n := range l {
+			if got := nm(n).String(); got != n {
+				report.Fatal("config %s: name %q is not in canonical form (%q)", name, n, got)
+			}
+		}
+	}
 	c.audit = strings.HasPrefix(u, "audit-")
 	return &sys{c: c, name: name}
 }
@@ -1187,12 +1358,12 @@ func main() {
 				d int
 			}
 			// cheap configurations first: what they do not use of their share of the budget goes to the rest
-			l := []e{{"handler i=0 in=2", 8}, {"digest i=3 in=0", 7}, {"mixed i=2 in=1", 7}, {"typedh i=0 in=2", 8}, {"typed i=3 in=0", 7}, {"race i=4 in=0", 8}, {"names i=4 in=0", 7}, {"siblings i=4 in=0", 7}}
+			l := []e{{"reply i=0 in=2", 6}, {"ambigh i=0 in=2", 7}, {"ambig i=2 in=0", 6}, {"handler i=0 in=2", 8}, {"digest i=3 in=0", 7}, {"mixed i=2 in=1", 7}, {"typedh i=0 in=2", 8}, {"typed i=3 in=0", 7}, {"race i=4 in=0", 8}, {"names i=4 in=0", 7}, {"siblings i=4 in=0", 7}}
 			if th {
 				// audit-*: the same universes searched WITHOUT canonical-state de-duplication to a smaller
 				// depth; a violation key that only shows up there would mean the canonical form merges
 				// states with different futures.
-				l = []e{{"digest i=4 in=0", 8}, {"mixed i=3 in=2", 9}, {"typedh i=0 in=3", 8}, {"typed i=4 in=0", 8}, {"race i=5 in=0", 10}, {"names i=5 in=0", 10}, {"siblings i=5 in=0", 10},
+				l = []e{{"reply i=0 in=3", 9}, {"ambigh i=0 in=3", 8}, {"ambig i=4 in=0", 8}, {"digest i=4 in=0", 8}, {"mixed i=3 in=2", 9}, {"typedh i=0 in=3", 8}, {"typed i=4 in=0", 8}, {"race i=5 in=0", 10}, {"names i=5 in=0", 10}, {"siblings i=5 in=0", 10},
 					{"audit-race i=3 in=0", 5}, {"audit-names i=3 in=0", 4}, {"audit-handler i=0 in=2", 5},
 					{"handler i=0 in=3", 12}} // biggest last: it gets whatever budget the others left
 			}
@@ -1214,15 +1385,16 @@ func main() {
 			if th {
 				return 25 * time.Minute
 			}
-			return 75 * time.Second
+			return 85 * time.Second
 		},
-		Rule: "BFS over event histories (Express with name/CanBePrefix/lifetime/implicit digest, Data and Nack arrivals, clock advances, timer Fire / RunFired as separate events, Attach/DetachHandler, incoming Interests, Reply) executed on a real basic.Engine with a harness face and a harness timer; every callback invocation is checked when it happens (at most once, Data satisfies the Interest, timeout not before lifetime, Nack only for its name), every Data arrival must resolve every pending Interest it satisfies, every incoming Interest must reach the handler at the longest attached prefix, Reply must transmit before and must not transmit after the deadline; after every transition the quiescence closure (all timers fire and run) must leave every Interest resolved exactly once",
+		Rule: "BFS over event histories (Express with name/CanBePrefix/lifetime/implicit digest, Data and Nack arrivals, clock advances, timer Fire / RunFired as separate events, Attach/DetachHandler, incoming Interests, Reply) executed on a real basic.Engine with a harness face and a harness timer; every callback invocation is checked when it happens (at most once, Data satisfies the Interest, timeout not before lifetime, Nack only for its name), every Data arrival must resolve every pending Interest it satisfies, every incoming Interest (InterestLifetime absent = 4 s default / 0 / 10 / 20 ms; bare, in an LpPacket, in an LpPacket with a PIT token) must reach the handler at the longest attached prefix, Reply must transmit the Data (bare or as LpPacket fragment, never with a PIT token other than the Interest's) before and must not transmit after the deadline (clock steps of 10 ms and jumps exactly onto a deadline, where both answers are accepted); after every transition the quiescence closure (all timers fire and run) must leave every Interest resolved exactly once",
 		Assumptions: []string{
 			"timer/receive interleavings are explored at the granularity of whole engine callbacks: the engine holds pitLock for the whole of onData/onNack/timeoutFunc, and starts no goroutine itself, so finer interleavings do not exist",
 			"the harness timer has time.AfterFunc semantics: cancel is effective only until the timer has fired; a fired timer's callback may run arbitrarily later (goroutine blocked on pitLock)",
 			"equal canonical state (reachable PIT/FIB tries, PIT-node chains captured by live timers and pending Interests, timer deadlines and Interest deadlines relative to now saturated at 'due', per-Interest results, pending handler invocations) implies equal futures",
+			"an incoming Interest without InterestLifetime element has the protocol default lifetime of 4 s (NDN packet format); its deadline is arrival + lifetime; at the deadline instant itself both transmitting and refusing the reply are accepted; the property does not prescribe the link framing of a reply nor that the Interest's PIT token is echoed, only a frame carrying a different token is rejected",
 			"a Nack for name N may (not must) resolve pending Interests whose name without the implicit-digest component is N; the property is silent on whether a Nack must be delivered",
-			"finite universes: names /a,/a/b,/a/b/c,/a/c (+/x Data; prefixes down to /a/b/c/d and /a/x,/a/b/c/x for incoming Interests; /a/seg=1,/a/v=1,/a/%01 for component types), lifetimes 10/20 ms, at most 4 (quick) / 5 (thorough) expressed Interests and 2/3 incoming Interests per history",
+			"finite universes: names /a,/a/b,/a/b/c,/a/c (+/x Data; prefixes down to /a/b/c/d and /a/x,/a/b/c/x for incoming Interests; /a/seg=1,/a/v=1,/a/%01 for component types; /a/v=1,/a/v%3D1,/a/9=x,/a/9%3Dx,/a/x,/a/32=x for look-alike components), lifetimes 10/20 ms (incoming Interests also 0 and no InterestLifetime element), at most 4 (quick) / 5 (thorough) expressed Interests and 2/3 incoming Interests per history",
 		},
 	})
 }
